@@ -147,8 +147,9 @@ fn c13_historical() {
     let t_old = SystemTime::fresh("old_quote_timestamp_s");
     let t_new = SystemTime::fresh("new_quote_timestamp_s");
     assume(t_old.0.slt(t_new.0).0);
+    // the verifier's clock is unrelated to both timestamps: a quote may be dated ahead of it
     let now = shim::now_secs();
-    assume(t_new.0.sle(now).0);
+    if t_new.0.sle(now).get() { cover("both_in_the_past"); } else { cover("dated_ahead_of_the_verifier_clock"); }
     let mut old = fresh_quote(1, XorName([1; 32]), t_old);
     let mut new = fresh_quote(1, XorName([1; 32]), t_new);
     old.quoting_metrics.live_time = 100;
